@@ -92,7 +92,7 @@ def probes_for(shape):
     if k in ("tuple", "ntuple"):
         for i in range(len(shape) - 1):
             out.append(("elem", i, "const"))
-            if isinstance(shape[1 + i], str):
+            if isinstance(shape[1 + i], str) and not abi_gen.is_bytes_shape(shape[1 + i]):
                 out.append(("elem", i, "const_sub"))
             if k == "ntuple":
                 out.append(("elem", i, "field"))
@@ -103,7 +103,7 @@ def probes_for(shape):
     out.append(("length",))
     out.append(("reuse",))
     out.append(("elem", None, "rt"))
-    if isinstance(shape[1], str):
+    if isinstance(shape[1], str) and not abi_gen.is_bytes_shape(shape[1]):
         out.append(("elem", None, "rt_sub"))
         out.append(("elem", 1 if (k == "darr" or shape[2] > 1) else 0, "const_sub"))
     n = shape[2] if k == "sarr" else 3
